@@ -365,6 +365,46 @@ def mutable_records(asts):
     return sorted(bad)
 
 
+STATE_CLASSES = ["util::string", "util::arena", "util::arena::pool", "util::string_pool",
+                 "util::rb_tree::link", "util::rb_tree::core", "util::rb_tree::node", "util::rb_tree::container", "util::rb_tree::chain",
+                 "impl::obj_list", "impl::obj_sequence", "impl::ref_sequence", "impl::stable_farm", "impl::typed_sequence", "impl::homogeneous_scope",
+                 "impl::homogeneous_region", "impl::Scope", "impl::Overload", "impl::overload_entry", "impl::master_decl_data",
+                 "impl::General_substitution", "impl::Elementary_substitution", "impl::Parameter_list", "impl::Parameter", "impl::Enumerator",
+                 "impl::Base_type", "impl::Region", "Printer"]
+
+
+def class_fields(asts):
+    """the non-static data members (name, declared type, bit-field width) of the classes whose state the hand-written models abstract"""
+    out = {c: [] for c in STATE_CLASSES}
+    for tu in ("impl", "io", "utility"):
+        ast = asts.get(tu)
+        if ast is None:
+            continue
+        for n, p in ast.nodes:
+            if n.get("kind") != "FieldDecl":
+                continue
+            names = [x for x in p if isinstance(x, str)]
+            if not names or names[0] != "ipr":
+                continue
+            cls = class_key(p)
+            if cls not in out:
+                continue
+            t = n.get("type", {}).get("qualType", "")
+            if n.get("isBitfield"):
+                w = "?"
+                for m, _ in walk(n):
+                    if m.get("kind") in ("ConstantExpr", "IntegerLiteral") and m.get("value") is not None:
+                        w = str(m.get("value"))
+                        break
+                t += " : " + w
+            if n.get("mutable"):
+                t = "mutable " + t
+            row = [n.get("name", "?"), t]
+            if row[0] not in [r[0] for r in out[cls]]:
+                out[cls].append(row)
+    return out
+
+
 def statics(asts):
     """every variable with static storage duration defined in the TUs (namespace scope,
     static data members, function-local statics): constness facts"""
@@ -1237,6 +1277,7 @@ def extract(workdir):
     facts["cmp_sites"] = cmp_sites(impl)
     facts["statics"] = statics(asts)
     facts["mutable_records"] = mutable_records(asts)
+    facts["class_fields"] = class_fields(asts)
     facts["stores"] = store_facts(impl)
     facts["derived"] = derived_ops(ast_uses)
     inline_rows, facts["ctor_inits"] = impl_inline_ops(impl)
